@@ -2,6 +2,7 @@
 known-findings matching, evidence, replays."""
 import fcntl
 import hashlib
+import resource
 import json
 import os
 import shutil
@@ -110,6 +111,16 @@ def stage_binary(path, rundir, name):
 # running shards
 
 
+def cpu_limit(tier):
+    """Per-process CPU budget for driver shards: orders of magnitude above what a shard needs."""
+    secs = 300 if tier == "quick" else 7200
+
+    def f():
+        resource.setrlimit(resource.RLIMIT_CPU, (secs, secs + 10))
+        resource.setrlimit(resource.RLIMIT_AS, (16 << 30, 16 << 30))
+    return f
+
+
 def run_shards(binary, subcmd, n_total, seed, tier, rundir, extra=None, shards=NCPU, timeout=3600, env=None):
     """Run `shards` processes of the driver; returns list of parsed reports.
     A shard that dies is reported as a pseudo-report with `died`."""
@@ -123,7 +134,7 @@ def run_shards(binary, subcmd, n_total, seed, tier, rundir, extra=None, shards=N
         cmd = [binary, subcmd, "--seed", str(seed), "--n", str(per), "--shard", "%d/%d" % (s, shards), "--tier", tier, "--out", out]
         if extra:
             cmd += extra
-        p = subprocess.Popen(cmd, stdout=subprocess.PIPE, stderr=subprocess.PIPE, env=env or ENV)
+        p = subprocess.Popen(cmd, stdout=subprocess.PIPE, stderr=subprocess.PIPE, env=env or ENV, preexec_fn=cpu_limit(tier))
         procs.append((s, p, out))
     reports = []
     deadline = time.time() + timeout
@@ -136,7 +147,10 @@ def run_shards(binary, subcmd, n_total, seed, tier, rundir, extra=None, shards=N
             reports.append({"died": "wall-clock watchdog (inconclusive)", "shard": s, "inconclusive": ["shard %d hit the wall-clock watchdog" % s]})
             continue
         if p.returncode != 0 or not os.path.exists(out):
-            reports.append({"died": "exit %s" % p.returncode, "shard": s, "stderr": se.decode("utf-8", "replace")[-2000:]})
+            why = "exit %s" % p.returncode
+            if p.returncode == -24:
+                why = "CPU budget exhausted (SIGXCPU): a case did not return in bounded time — run C05 to name it"
+            reports.append({"died": why, "shard": s, "stderr": se.decode("utf-8", "replace")[-2000:]})
             continue
         with open(out) as f:
             reports.append(json.load(f))
@@ -212,6 +226,9 @@ def classify_violations(pid, violations):
 
 def write_replay(pid, v, tier, seed):
     os.makedirs(os.path.join(VERIF, "replays"), exist_ok=True)
+    v = dict(v)
+    if os.path.realpath(REPO) != "/repo":
+        v["repo"] = REPO
     body = json.dumps(v, sort_keys=True)
     h = hashlib.sha1(body.encode()).hexdigest()[:12]
     path = os.path.join(VERIF, "replays", "%s-%s.json" % (pid, h))
@@ -221,8 +238,16 @@ def write_replay(pid, v, tier, seed):
     return path
 
 
+def evidence_dir():
+    # runs against a scratch copy (REPO=<dir>, used for seeded defects) must not overwrite the
+    # evidence of /repo itself
+    if os.path.realpath(REPO) != "/repo":
+        return os.path.join(WORK, "evidence-of-scratch-copies")
+    return os.path.join(VERIF, "evidence")
+
+
 def write_evidence(pid, tier, seed, level, coverage, assumptions, wall_s, violations):
-    os.makedirs(os.path.join(VERIF, "evidence"), exist_ok=True)
+    os.makedirs(evidence_dir(), exist_ok=True)
     ev = {
         "property_id": pid,
         "tier": tier,
@@ -233,10 +258,10 @@ def write_evidence(pid, tier, seed, level, coverage, assumptions, wall_s, violat
         "wall_s": round(wall_s, 2),
         "violations": violations,
     }
-    tmp = os.path.join(VERIF, "evidence", ".%s.json.tmp" % pid)
+    tmp = os.path.join(evidence_dir(), ".%s.json.tmp" % pid)
     with open(tmp, "w") as f:
         json.dump(ev, f, indent=1, sort_keys=True, default=str)
-    os.replace(tmp, os.path.join(VERIF, "evidence", "%s.json" % pid))
+    os.replace(tmp, os.path.join(evidence_dir(), "%s.json" % pid))
 
 
 def conclude(pid, tier, seed, merged, cfg, t0, extra_cov=None):
